@@ -28,10 +28,10 @@ TITLE = 'bit-for-bit reproducibility, RNG untouched'
 EXPLORER = 'E1'
 CLAUSES = ['C09.digest_equal_rng', 'C09.digest_equal_history', 'C09.digest_equal_hashseed', 'C09.rng_untouched_run', 'C09.rng_untouched_construct',
            'C09.rng_untouched_demo', 'C09.rng_untouched_tmp_seed_raise', 'C09.rng_untouched_plot', 'C09.demo_data_equal', 'C09.mixture_engaged',
-           'C09.branch119_target']
+           'C09.branch119_target', 'C09.digest_equal_after_whatif']
 RULE = ('targets: 7 scenes engaging the mixture model (2 reach the #119 branch) + the canonical demo data; RNG: 6 global states (seeds 0, 1, '
         '2^32-1, after 1000 draws, with a cached Gaussian, after shuffle) ; HISTORY: all sequences of length <= 2 over 8 prior operations (73 per '
-        'target), each in a fresh fork; HASHSEED: fresh interpreters with PYTHONHASHSEED in {0,1,2,4242,random}. distinct_nontrivial = distinct '
+        'target), each in a fresh fork; WHAT-IF: the data of the target itself under every single-leaf deviation of the parameter menu, then the target again; HASHSEED: fresh interpreters with PYTHONHASHSEED in {0,1,2,4242,random}. distinct_nontrivial = distinct '
         '(target, environment) pairs executed')
 ASSUMPTIONS = ['numerical-library thread counts pinned to 1 (the property excludes bitwise reproducibility across thread counts)',
                'one machine, one library build']
@@ -65,6 +65,14 @@ def cases(tier):
         out.append({'kind': 'rng', 'target': t})
         for p in PRIOR_OPS:
             out.append({'kind': 'hist', 'target': t, 'first': p, 'depth': 2 if tier == 'quick' else 3})
+    # what-if histories: the target's OWN data processed under every single-leaf deviation of the parameter menu, the target after each
+    from .. import params
+    ndev = len([d for d in params.deviations() if d[1] == 'call'])
+    for t in targets():
+        if tier == 'quick' and t in ('geneva', 'demo'):
+            continue
+        for lo in range(0, ndev, 16):
+            out.append({'kind': 'whatif', 'target': t, 'devs': [lo, min(lo + 16, ndev)]})
     for hs in ('0', '1', '2', '4242', 'random'):
         out.append({'kind': 'hashseed', 'value': hs})
     return out
@@ -264,6 +272,53 @@ def run_case(case):
             log_rng(log, f'history {h} then {t}', sub)
             res['digests'].add(f'{t}|{",".join(h)}')
         res['sample'] = {'kind': 'hist', 'target': t, 'first': case['first'], 'histories': len(hists)}
+    elif case['kind'] == 'whatif':
+        import ampycloud
+        from .. import params
+        t = case['target']
+        ref, _ = isolated(lambda: run_target(t))
+        devs = [d for d in params.deviations() if d[1] == 'call'][case['devs'][0]:case['devs'][1]]
+
+        def whatif(fr, prms, dd):
+            with warnings.catch_warnings():
+                warnings.simplefilter('ignore')
+                try:
+                    ampycloud.run(fr.copy(deep=True), prms=params.merge(prms or {}, dd)).metar_msg()
+                except Exception:
+                    pass              # (a what-if run that ampycloud refuses is still a legitimate earlier event)
+
+        def one(i):
+            # a pristine process: ONE what-if run on the target's data, then the target (the target must not have run before: a defect
+            # that parks results keyed by the data would then find its own, correct, entries)
+            fr, prms = build_target(t)
+            whatif(fr, prms, devs[i][2])
+            return run_target(t)[0]
+
+        def all_then_target():
+            fr, prms = build_target(t)
+            for _n, _r, dd in devs:
+                whatif(fr, prms, dd)
+            return run_target(t)[0]
+        bad = None
+        for i in ([case['stop_at']] if 'stop_at' in case else range(len(devs))):
+            res['n'] += 2
+            cl['C09.digest_equal_after_whatif'] = cl.get('C09.digest_equal_after_whatif', 0) + 1
+            if isolated(lambda: one(i)) != ref:
+                bad = (i, devs[i][0])
+                break
+        if bad is None and 'stop_at' not in case:
+            res['n'] += len(devs) + 1
+            cl['C09.digest_equal_after_whatif'] = cl.get('C09.digest_equal_after_whatif', 0) + 1
+            if isolated(all_then_target) != ref:
+                bad = (None, 'all %d what-if runs of this case, one after the other' % len(devs))
+        if bad is not None:
+            sub = {k: v for k, v in case.items() if k != 'stop_at'}
+            if bad[0] is not None:
+                sub['stop_at'] = bad[0]
+            viol('C09.digest_equal_after_whatif', {'target': t, 'what': 'result differs from the pristine-process reference after a what-if run on the same data',
+                                                   'what_if_deviation': bad[1]}, sub)
+        res['digests'].add(f'{t}|whatif{case["devs"]}')
+        res['sample'] = {'kind': 'whatif', 'target': t, 'deviations': [d[0] for d in devs]}
     else:
         refs = {t: isolated(lambda t=t: run_target(t))[0] for t in targets()}
         envv = dict(os.environ)
